@@ -198,6 +198,21 @@ func (s *subject) runHistory(seq []int) (v *hx.Violation, states map[uint64]bool
 		var exp map[string]*ref.T
 		wantErr, unjudged := false, false
 		label := ""
+		if op >= oddBase {
+			ks := sortedKeys(TA)
+			ti, ax := (op-oddBase)/8, (op-oddBase)%8
+			if ti >= len(ks) || ax >= len(s.FeedA[ks[ti]].Shape) {
+				continue
+			}
+			feed = gonnx.Tensors{}
+			for _, k := range ks {
+				feed[k] = TA[k]
+			}
+			sh := append([]int{}, s.FeedA[ks[ti]].Shape...)
+			sh[ax]++
+			feed[ks[ti]] = hx.ToG(perturb(&ref.T{DT: s.FeedA[ks[ti]].DT, Shape: sh, V: make([]uint64, ref.NElem(sh))}, 57))
+			unjudged = true
+		}
 		switch op {
 		case opRefillA:
 			src := s.FeedB
@@ -311,7 +326,7 @@ func (s *subject) runHistory(seq []int) (v *hx.Violation, states map[uint64]bool
 		} else {
 			outs, rerr = m.Run(feed)
 		}
-		where := fmt.Sprintf("step %d (%s) of %v", step, histOpNames[op], seqNames(seq))
+		where := fmt.Sprintf("step %d (%s) of %v", step, histOpName(op), seqNames(seq))
 		if unjudged {
 		} else if wantErr {
 			if rerr == nil {
@@ -373,10 +388,21 @@ func (s *subject) runHistory(seq []int) (v *hx.Violation, states map[uint64]bool
 	return nil, states, transitions
 }
 
+// operations >= oddBase: Run(A with caller tensor number (code-oddBase)/8 (sorted by name) one element longer on axis
+// (code-oddBase)%8); the outcome of that call is not judged.
+const oddBase = 100
+
+func histOpName(op int) string {
+	if op >= oddBase {
+		return fmt.Sprintf("Run(A with caller tensor #%d one longer on axis %d; outcome not judged)", (op-oddBase)/8, (op-oddBase)%8)
+	}
+	return histOpNames[op]
+}
+
 func seqNames(seq []int) []string {
 	o := make([]string, len(seq))
 	for i, s := range seq {
-		o[i] = histOpNames[s]
+		o[i] = histOpName(s)
 	}
 	return o
 }
@@ -440,7 +466,7 @@ func historySubjects(all bool) []*subject {
 			}
 			model, feed, outNames := hx.SingleNodeModel(oc)
 			var chain map[string]string
-			if (rc.Op == "RNN" || rc.Op == "GRU" || rc.Op == "LSTM") && !oc.Init[5] {
+			if (rc.Op == "RNN" || rc.Op == "GRU" || rc.Op == "LSTM") && len(rc.Inputs) > 5 && !oc.Init[5] {
 				chain = map[string]string{"out1": "in5"}
 				if rc.Op == "LSTM" && !oc.Init[6] {
 					chain["out2"] = "in6"
@@ -463,6 +489,28 @@ func historySubjects(all bool) []*subject {
 				hx.Node("Conv", []string{"x", "W", "bias"}, []string{"y"}, nil), hx.Node("ArgMax", []string{"y"}, []string{"am"}, []hx.Attr{hx.AInt("axis", 1), hx.AInt("keepdims", 1)})},
 			Output: []*onnx.ValueInfoProto{hx.ValueInfoNoShape("y"), hx.ValueInfoNoShape("bias"), hx.ValueInfoNoShape("am")}}
 		out = append(out, newSubject("comp:Constant->Conv.bias->ArgMax", hx.Marshal(hx.Model(g2, 13)), map[string]*ref.T{"x": recFill(ref.F32, []int{2, 2, 3, 3}, 1)}, []string{"y", "bias", "am"}, nil, "composition"))
+	}
+	// (ii-b) one caller tensor / one weight wired to several inputs of a node
+	for _, so := range []struct {
+		op    string
+		attrs []hx.Attr
+		n     int
+	}{{"Gemm", []hx.Attr{hx.AInt("transA", 1)}, 2}, {"Gemm", []hx.Attr{hx.AInt("transB", 1)}, 3}, {"MatMul", nil, 2}, {"Add", nil, 2}, {"Mul", nil, 2}, {"Sub", nil, 2}, {"Concat", []hx.Attr{hx.AInt("axis", 0)}, 3}, {"PRelu", nil, 2}} {
+		for _, asInit := range []bool{false, true} {
+			ins := make([]string, so.n)
+			for i := range ins {
+				ins[i] = "x"
+			}
+			g := &onnx.GraphProto{Name: "g", Node: []*onnx.NodeProto{hx.Node(so.op, ins, []string{"y"}, so.attrs)}, Output: []*onnx.ValueInfoProto{hx.ValueInfoNoShape("y")}}
+			feed := map[string]*ref.T{}
+			if asInit {
+				g.Initializer = append(g.Initializer, hx.TensorProto("x", recFill(ref.F32, []int{2, 2}, 4), "raw"))
+			} else {
+				g.Input = append(g.Input, hx.ValueInfo("x", ref.F32, hx.SymbolicDims(2, "d")))
+				feed["x"] = recFill(ref.F32, []int{2, 2}, 4)
+			}
+			out = append(out, newSubject(fmt.Sprintf("self:%s%v(x,x..)/init=%v", so.op, len(so.attrs), asInit), hx.Marshal(hx.Model(g, 13)), feed, []string{"y"}, nil, "op="+so.op, "self-operand"))
+		}
 	}
 	// (iii) the repository's sample models; B uses another batch size
 	{
@@ -494,8 +542,8 @@ func checkC02(c *hx.Checker) {
 	if thorough {
 		depth = 5
 	}
-	c.Rule = fmt.Sprintf("subjects: (i) every registered operator as a single-node model under every role assignment of its tensor inputs (caller input / initializer; for operators with > 3 tensor inputs: none, all, each single one, all-but-one as initializer), (ii) compositions ConstantOfShape->GRU.initial_h and Constant->Conv.bias->ArgMax, (iii) sample models mlp, scaler, gru (thorough: + ndm). "+
-		"history alphabet on ONE loaded Model with persistent caller tensor objects A and B (B = other values; other batch size for the sample models): Run(A), Run(B), Run(fresh copy of A), RunFail(wrong rank), RunFail(missing input), Run(state outputs of the previous Run fed back as the very same tensor objects), the caller overwriting the contents of the A tensor objects in place (A then carries B's values and vice versa), Run with the first / last caller tensor one element longer on its last axis (single-node models declare symbolic dims, so the call reaches the operator and typically fails inside it; its outcome is not judged). "+
+	c.Rule = fmt.Sprintf("subjects: (i) every registered operator as a single-node model under every role assignment of its tensor inputs (caller input / initializer; for operators with > 3 tensor inputs: none, all, each single one, all-but-one as initializer), (ii) compositions ConstantOfShape->GRU.initial_h and Constant->Conv.bias->ArgMax, and nodes whose inputs all name one and the same caller tensor / weight (Gemm{transA}, Gemm{transB}, MatMul, Add, Mul, Sub, Concat, PRelu), (iii) sample models mlp, scaler, gru (thorough: + ndm). "+
+		"history alphabet on ONE loaded Model with persistent caller tensor objects A and B (B = other values; other batch size for the sample models): Run(A), Run(B), Run(fresh copy of A), RunFail(wrong rank), RunFail(missing input), Run(state outputs of the previous Run fed back as the very same tensor objects), the caller overwriting the contents of the A tensor objects in place (A then carries B's values and vice versa), Run with the first / last caller tensor one element longer on its last axis (single-node models declare symbolic dims, so the call reaches the operator and typically fails inside it; its outcome is not judged); additionally every caller tensor x every axis made one element longer, embedded in 5-7 short histories per (tensor, axis). "+
 		"ALL sequences of depth <= %d are executed, each on a freshly loaded model. After every operation: outputs equal the reference evaluation of the model for these inputs AND are bit-identical to the first Run on the same values in this history; deep snapshots (shape, strides, dtype, flags, every element bit) of A, B and of every weight tensor plus the marshalled model proto equal their load-time value. "+
 		"states = distinct (weights + proto + caller tensors) digests observed (1 per subject when the property holds, 2 with the caller's own in-place refill), transitions = operations executed; non-trivial = histories with >= 2 operations", depth)
 	c.Assumptions = []string{"oracle for output values: reference interpreter over the same model bytes (refmodel.go), so state leaking through package-level variables cannot contaminate the expectation",
@@ -530,6 +578,25 @@ func checkC02(c *hx.Checker) {
 			}
 			jobs = append(jobs, job{s, seq})
 		}
+		// every caller tensor x every axis made one element longer (with symbolic dims the call reaches the operator
+		// and fails - or succeeds - somewhere inside it), embedded in short histories
+		var ks []string
+		for k := range s.FeedA {
+			ks = append(ks, k)
+		}
+		sort.Strings(ks)
+		for ti, k := range ks {
+			for ax := range s.FeedA[k].Shape {
+				o := oddBase + ti*8 + ax
+				hs := [][]int{{o, opRunA}, {opRunA, o, opRunA}, {opRunB, o, opRunB}, {opRunA, o, opRunFreshA}, {o, o, opRunB}}
+				if sameShapes(s.FeedA, s.FeedB) {
+					hs = append(hs, []int{o, opRefillA, opRunA}, []int{opRunA, opRefillA, o, opRunA})
+				}
+				for _, h := range hs {
+					jobs = append(jobs, job{s, h})
+				}
+			}
+		}
 	}
 	c.Extra["subjects"] = len(subs)
 	var stateCount, transCount int64
@@ -551,6 +618,10 @@ func checkC02(c *hx.Checker) {
 					switch o {
 					case opRunFailRank, opRunFailMissing, opRunOddFirst, opRunOddLast:
 						cls = "with-failing-calls"
+					default:
+						if o >= oddBase {
+							cls = "with-failing-calls"
+						}
 					case opRefillA:
 						if cls == "plain" {
 							cls = "with-refilled-caller-tensors"
